@@ -261,6 +261,7 @@ func c18Alphabet(c Cfg) []Op {
 		Op{K: "batch", Sub: []Op{{K: "put", Key: c18Keys[2], VC: "S"}, {K: "put", Key: "a", VC: "S"}}, Dev: true},
 		Op{K: "restart", Dev: true},
 		Op{K: "merge", Dev: true}, // an earlier merge (adopted by a later restart): its hint file must be superseded by the next one
+		Op{K: "restartfs", Arg: 64, Dev: true}, // reopen with a smaller limit: the merge output may need more files than its input
 	)
 	return a
 }
